@@ -588,10 +588,13 @@ def comb_texts(rng, ct, n):
     for _ in range(3):
         try:
             items = G.gen_chunk(rng, ct.term, ct.h, ct.w)
-            if len(items) == 1:
-                base.append(ps.serialize_problem(ct.obj, items[0], height=ct.h, width=ct.w))
         except Exception:
-            pass
+            continue
+        if len(items) == 1:
+            # (Seq.serialize over a base that consumes nothing never ends: alarm)
+            r = timed(lambda: vlib.guarded(lambda: ps.serialize_problem(ct.obj, items[0], height=ct.h, width=ct.w)), 0.5)
+            if r[0] == "ok" and isinstance(r[1], str):
+                base.append(r[1])
     out = [("empty", "")]
     for s in base:
         out.append(("valid", s))
